@@ -94,6 +94,8 @@ type RT struct {
 	// Trace keeps the last decisions for violation reports.
 	Trace     []string
 	KeepTrace bool
+	// SiteHits counts how often each instrumented site (scheduling or I/O label) was reached.
+	SiteHits map[string]int
 }
 
 var epoch uint64
@@ -101,7 +103,7 @@ var epoch uint64
 func New(d Drawer) *RT {
 	epoch++
 	return &RT{nextTok: epoch << 32, tasks: map[uint64]*task{}, parked: map[string]*task{}, pending: map[uint64]string{},
-		notify: make(chan struct{}, 1), D: d, MaxSteps: 200000, stepHooks: map[int][]func(){}, policy: -1}
+		notify: make(chan struct{}, 1), D: d, SiteHits: map[string]int{}, MaxSteps: 200000, stepHooks: map[int][]func(){}, policy: -1}
 }
 
 func goid() uint64 {
@@ -141,6 +143,7 @@ func (r *RT) park(t *task, label string, ok func() bool) {
 		return
 	}
 	r.mu.Lock()
+	r.SiteHits[label]++
 	if r.aborted {
 		r.mu.Unlock()
 		<-t.wake // never released: the run is over
@@ -172,6 +175,7 @@ func (r *RT) IO(label string) {
 	}
 	r.mu.Lock()
 	r.IOCount++
+	r.SiteHits["io:"+label]++
 	n := r.IOCount
 	if r.LogIO {
 		r.IOLog = append(r.IOLog, label)
